@@ -1253,3 +1253,53 @@ Proof.
   - unfold phase_ok. cbn [a_phase with_obs]. rewrite nlog_set_store. cbn [set_store unst].
     splits; auto.
 Qed.
+
+(* compaction while a snapshot is pending: the logical log does not depend on the storage *)
+Lemma write_compact_pending_pres rw l s ci m :
+  RepInv rw l -> u_snapshot (unst l) = Some s -> first_of (store l) < ci -> ci < next_of (store l) ->
+  compact (store l) ci = Ok m ->
+  RepInv rw (set_store l m) /\ first_of m = ci.
+Proof.
+  intros HI Es H1 H2 Hc. pose proof HI as HI0. destruct HI0 as [Hs Hq Hct Hsh Hp Hcm Hap Hb].
+  destruct (compact_ok (store l) ci Hs H1 H2) as (Hc2 & Hs' & Hf').
+  rewrite Hc in Hc2. injection Hc2 as E.
+  assert (Hnx : next_of m = next_of (store l)).
+  { unfold next_of at 1. rewrite E at 1. rewrite Hf'. rewrite E. cbn [entries set_entries]. rewrite skipn_length.
+    unfold next_of in *. lia. }
+  assert (Habs : abs (set_store l m) = abs l).
+  { unfold abs. cbn [set_store unst]. rewrite Es. reflexivity. }
+  split; [|rewrite E; exact Hf'].
+  constructor; rewrite ?Habs; cbn [set_store store unst committed persisted applied]; rewrite ?Es; auto.
+  - rewrite E. exact Hs'.
+  - rewrite E. exact Hq.
+  - rewrite Es in Hsh. exact Hsh.
+  - rewrite Hnx. exact Hp.
+Qed.
+
+Lemma good_compact a n ci m :
+  Good a n -> a_phase a = Idle ->
+  compact (a_store a) ci = Ok m -> ci <= a_applied a -> ci < next_of (a_store a) ->
+  Good (with_obs a no_out m Idle (a_applied a)) (set_store_node n m).
+Proof.
+  intros G Eph Hc Hca Hcn. rewrite (g_store a n G) in Hc, Hcn. rewrite (g_applied a n G) in Hca.
+  pose proof (Good_NLI a n G) as HI.
+  pose proof (g_app_le a n G) as H1. pose proof (g_csi_stable a n G) as H2.
+  assert (Hall : RepInv false (set_store (nlog n) m)
+                 /\ first_of (store (nlog n)) <= first_of m
+                 /\ (first_of m = first_of (store (nlog n)) \/ first_of m = ci)).
+  { destruct (N.le_gt_cases ci (first_of (store (nlog n)))) as [Hle|Hgt].
+    - rewrite (store_compact_noop false (nlog n) ci HI Hle) in Hc. inversion Hc; subst m.
+      replace (set_store (nlog n) (store (nlog n))) with (nlog n) by (destruct (nlog n); reflexivity).
+      splits; auto. lia.
+    - destruct (u_snapshot (unst (nlog n))) as [s|] eqn:Es.
+      + destruct (write_compact_pending_pres false (nlog n) s ci m HI Es Hgt Hcn Hc) as [A B].
+        splits; auto. lia.
+      + destruct (store_compact_ok (nlog n) ci HI Es Hgt Hca ltac:(lia) Hcn) as (st2 & Hc2 & Hr & _ & Hf).
+        rewrite Hc in Hc2. inversion Hc2; subst st2. splits; auto. lia. }
+  destruct Hall as (A & B & C0).
+  apply good_store; [exact G|exact A| | |].
+  - pose proof (g_first a n G). destruct C0 as [-> | ->]; lia.
+  - intros rr i t Hin Hs. pose proof (g_recs a n G rr i t) as Hr. unfold recs_done in Hr. rewrite Eph in Hr.
+    specialize (Hr Hin Hs). lia.
+  - exact I.
+Qed.
